@@ -120,3 +120,55 @@ def canon_certify(text):
     import vetlib
     e = vetlib.parse_sexp(text)
     return [e[1][0]] + [int(x) for x in e[1][1:]] + [int(e[2])]
+
+
+# ---------------------------------------------------------------------------------------------------------------
+# `certify <crate> [<from>] <to>` WITHOUT --criteria: what cargo-vet pre-selects (coq/Guess.v, model of
+# guess_audit_criteria) against what the real command recorded when the user pressed ENTER at the prompt
+
+GUESS_IMPORTS = ["Base", "Extracted", "Show", "Criteria", "AuditGraph", "DepGraph", "Resolve", "Suggest", "Guess", "ShowGuess"]
+
+
+def guess_case(step, o):
+    """-> (coq expression, closure bits of what was recorded; 0 when the command stopped with "no criteria chosen")"""
+    from collections import Counter
+    import oracle as O
+    args = step.args
+    pos = []
+    for a in args[2:]:
+        if a.startswith("--"):
+            break
+        pos.append(a)
+    tb = o.get("tables") or {}
+    names, vers = tb.get("names") or [], tb.get("versions") or []
+    taps = [t for t in step.taps if t["kind"] == "resolve"]
+    if not pos or len(pos) > 2 or args[1] not in names or any(v not in vers for v in pos) or not taps:
+        return None
+    ni = names.index(args[1])
+    mi = taps[0]["model_input"]
+    table = O.table_of(mi["store"])
+    frm = {"_some": vers.index(pos[0])} if len(pos) == 2 else None
+    expr = (f"show_guess {coq(mi['graph'])} {coq(not taps[0]['locked'])} {coq(mi['store'])} {ni}%N "
+            f"{coq(frm)} {vers.index(pos[-1])}%N")
+    if step.outcome == "ok":
+        if not step.pre_store or not step.post_store:
+            return None
+
+        def key(a):
+            k, ka, crit, _imp, _fresh = O.audit_fields(a)
+            return (k, tuple(ka), O.bits(O.from_list(table, crit)))
+        pre = Counter(key(a) for a in O.pkg_store(step.pre_store["store"], ni)[1])
+        post = Counter(key(a) for a in O.pkg_store(step.post_store["store"], ni)[1])
+        fresh = sorted((post - pre).elements())
+        if len(fresh) != 1:
+            return None
+        return expr, fresh[0][2]
+    if "no criteria chosen" in step.outcome:
+        return expr, 0
+    return None
+
+
+def canon_guess(text):
+    import vetlib
+    e = vetlib.parse_sexp(text)
+    return int(e[1])
